@@ -72,9 +72,15 @@ PROPS = {
     "C18": _hist(2500, 60000, "histories on every frontend class with restarts as the crash model: in-process pickle round "
                  "trips that replace the solver or create a twin driven alongside it, expression round trips "
                  "(loads(dumps(e)) is e), and fresh-interpreter restarts (only the pickles survive; new process, other "
-                 "PYTHONHASHSEED) after which the history continues against the same reference",
+                 "PYTHONHASHSEED) after which the history continues against the same reference; expression phase: pools "
+                 "of BV/Bool/FP/String expressions with built-in and user annotations are pickled, every reference is "
+                 "dropped (same process after GC, or a fresh interpreter with another PYTHONHASHSEED in which some of the "
+                 "expressions are already alive), and the unpickled expressions must have the recorded deep structure, "
+                 "be identical objects exactly when structurally equal, evaluate to the same values, and come back as "
+                 "the original objects when pickled again and loaded in the first process",
                  design_ref="DESIGN.md 5 C18",
-                 phases=[{"profile": "C18", "share": 0.7}, {"profile": "C18approx", "share": 0.2}, {"profile": "C18fresh", "share": 0.1}]),
+                 phases=[{"profile": "C18", "share": 0.66}, {"profile": "C18approx", "share": 0.2}, {"profile": "C18fresh", "share": 0.1},
+                         {"profile": "C18expr", "share": 0.04}]),
     "C26": {"engine": "values", "quick": 2000, "thorough": 60000, "limit_s": 90,
             "rule": "one case = one seeded history 'pin -> query -> query other expressions over the same variables' on "
                     "Solver / SolverComposite / SolverCacheless / SolverStrings over wide bit-vectors (1..130 bits), "
